@@ -723,6 +723,17 @@ func c08FuncBatch(r *fw.Rec, shapes []string, base int) {
 			r.Note("LLVM rejected function batch " + fmt.Sprint(base) + "/" + modeName + ": " + firstLine(lastDiag(msg)))
 			continue
 		}
+		// parses that fail inside a function body, at different stages of its
+		// translation, come first: what a failed parse leaves behind in the process
+		// (pooled tables of local names, counters) must not change how the numbering
+		// of the next, valid module is read
+		for _, bad := range c08FailingBodies {
+			_, berr, bmsg := parseGuard("c08-failing-body", bad)
+			if berr == nil && bmsg == "" {
+				r.Note("a body meant to fail was accepted: " + firstLine(bad))
+			}
+			r.Tally("batches", "failing-body-parsed-before-the-batch")
+		}
 		m, perr, pmsg := parseGuard("c08", text)
 		if pmsg != "" || perr != nil {
 			what := pmsg
@@ -773,6 +784,19 @@ func c08FuncBatch(r *fw.Rec, shapes []string, base int) {
 		r.Tally("batches", "functions:"+modeName)
 	}
 	r.Sample(map[string]interface{}{"function_shapes": shapes[:min(4, len(shapes))], "alphabet": "B/b named/unnamed block, A/a add, s store, f fence, v void call, c call, I/i invoke, K/k callbr, w invoke+unnamed catchswitch", "modes": []string{"explicit", "implicit", "mixed"}})
+}
+
+// c08FailingBodies are modules whose translation fails inside a function
+// body: after the locals were indexed (an undefined local, an undefined label),
+// while they are indexed (a number out of sequence late in the body, a name
+// defined twice) and while instructions are typed (an operand of the wrong type).
+var c08FailingBodies = []string{
+	"define i32 @f(i32) {\n  %2 = add i32 %0, 1\n  %3 = add i32 %2, %9\n  ret i32 %3\n}\n",
+	"define i32 @f(i32) {\n  %2 = add i32 %0, 1\n  br label %7\n  ret i32 %2\n}\n",
+	"define i32 @f(i32) {\n  %2 = add i32 %0, 1\n  %3 = add i32 %2, 1\n  %5 = add i32 %3, 1\n  ret i32 %5\n}\n",
+	"define i32 @f(i32 %a) {\n  %x = add i32 %a, 1\n  %1 = add i32 %x, 1\n  %x = add i32 %1, 1\n  ret i32 %x\n}\n",
+	"define i32 @f(i32, i64) {\n  %3 = add i32 %0, 1\n  %4 = add i32 %3, %1\n  ret i32 %4\n}\n",
+	"define void @f() {\n  call void @g()\n  %1 = call i32 @h()\n  ret void\n}\ndeclare void @g()\n",
 }
 
 // c08CheckFunc compares the parsed function with the model.
